@@ -386,17 +386,29 @@ def run(ctx):
     spf = [f for f in P.fns.values() if f.brecord == SP and f.entry is not None]
     ctx.require(len(spf) >= 5, 'C02.R11: string_pool not found in the analysed units')
 
+    # allocation helpers of the class: one size parameter, the block returned is malloc(<that parameter> + sizeof(page))
+    alloc_helpers = {}
+    for g in spf:
+        if len(g.params) == 1 and (g.types[g.params[0]['t']] or '').replace('const ', '').strip() in ('size_t', 'unsigned long', 'std::size_t'):
+            mcs = [j for j in g.calls() if g.callee(j) == 'malloc']
+            if len(mcs) == 1 and g.params[0]['ref'] in g.subtree_refs(g.args(mcs[0])[0]) and not [r for r in g.subtree_refs(g.args(mcs[0])[0]) if r.startswith('f:')] and \
+                    not q.field_writes(g, 'string_pool::pages_') and not q.field_writes(g, 'string_pool::data_'):
+                alloc_helpers[g.id] = g
+
     def malloc_kinds(f):
         """local variable -> 'std' (malloc of sizeof(page)+page_size_) | 'big' (any other malloc)"""
         out = {}
+        if f.id in alloc_helpers:
+            return out
         for i in f.all_nodes():
             if f.N(i)['k'] == 'DeclStmt':
                 for d in f.N(i)['decls']:
                     if d.get('init') is not None:
-                        mc = [j for j in f.calls(d['init']) if f.callee(j) == 'malloc']
+                        mc = [f.args(j)[0] for j in f.calls(d['init']) if f.callee(j) == 'malloc']
+                        mc += [f.args(j)[0] for j in f.calls(d['init']) if f.N(j).get('callee') in alloc_helpers and f.args(j)]
                         if mc:
-                            refs = [model.strip_targs(r).rsplit('::', 1)[-1] for r in f.subtree_refs(f.args(mc[0])[0])]
-                            pars = [r for r in f.subtree_refs(f.args(mc[0])[0]) if r.startswith(('p:', 'v:'))]
+                            refs = [model.strip_targs(r).rsplit('::', 1)[-1] for r in f.subtree_refs(mc[0])]
+                            pars = [r for r in f.subtree_refs(mc[0]) if r.startswith(('p:', 'v:'))]
                             out[d['ref']] = 'std' if ('page_size_' in refs and not pars) else 'big'
         return out
     # kind of every value stored into the list head `pages_`
@@ -455,6 +467,7 @@ def run(ctx):
     T, SZ = 'this.f:%s::total_' % SM, 'this.f:%s::data_.size()' % SM
     ifs = [i for i in sadd.walk() if sadd.N(i)['k'] == 'IfStmt' and any(model.strip_targs(r).endswith('string_map::total_') for r in sadd.subtree_refs(sadd.N(i)['cond']))]
     inc = q.incdec_of_field(sadd, 'string_map::total_', ('++',)) + [w for w in q.field_writes(sadd, 'string_map::total_') if sadd.N(w)['k'] == 'CompoundAssignOperator']
+    inc = sorted(set(inc))
     ok = len(ifs) == 1 and len(inc) == 1
     detail = {}
     if ok:
@@ -465,13 +478,20 @@ def run(ctx):
         stay = S.rel(cond, False)
         ok_stay = stay is not None and _lin.implies(inv + stay, ge(sz - t - Lin.const(2)))
         # growth: the new table is built with a size expression in terms of the old size; total_ + 1 < new size
-        grow = [i for i in sadd.calls(sadd.N(ifs[0])['then']) if sadd.N(i)['k'] == 'CXXConstructExpr' and 'std::vector' in (sadd.callee(i) or '') and sadd.args(i)]
+        # the rebuild may live in a helper of the class called from the growing branch (its size expression is over the same fields)
+        grow = [(sadd, S, i) for i in sadd.calls(sadd.N(ifs[0])['then']) if sadd.N(i)['k'] == 'CXXConstructExpr' and 'std::vector' in (sadd.callee(i) or '') and sadd.args(i)]
+        for c_ in sadd.calls(sadd.N(ifs[0])['then']):
+            g_ = P.fns.get(sadd.N(c_).get('callee') or '')
+            if g_ is not None and g_.brecord == SM and g_.entry is not None and not g_.params and g_ is not sadd:
+                Sg = q.symb_with_locals(g_)
+                grow += [(g_, Sg, i) for i in g_.calls() if g_.N(i)['k'] == 'CXXConstructExpr' and 'std::vector' in (g_.callee(i) or '') and g_.args(i) and
+                         not q.field_writes(g_, 'string_map::total_')]
         ok_grow = len(grow) == 1
         if ok_grow:
-            nsz = S.lin(sadd.args(grow[0])[0])
+            nsz = grow[0][1].lin(grow[0][0].args(grow[0][2])[0])
             ok_grow = _lin.implies(inv + (S.rel(cond, True) or []), ge(nsz - t - Lin.const(2))) and _lin.implies(inv, ge(nsz - sz))
             detail['new_size'] = repr(nsz)
-        detail.update({'no-growth facts': [repr(c[1]) for c in (stay or [])], 'stay': ok_stay, 'grow': ok_grow})
+        detail.update({'no-growth facts': [repr(c[1]) for c in (stay or [])], 'stays': ok_stay, 'grows': ok_grow})
         ok = ok_stay and ok_grow
     ctx.check(ok, R12, 'string_map::add:an-empty-slot-remains', 'after add() the table can be completely full: the next lookup of an absent key (HTTP_HOST, HTTP_COOKIE ... on the event-loop thread) never terminates', sadd.where, detail=detail)
     for f in [g for g in P.fns.values() if g.brecord == SM and (g.kind == 'ctor' or g.short == 'clear') and g.entry is not None]:
